@@ -29,7 +29,7 @@ CallOK(e) ==
      ELSE e.v \in Given(c, e.kind, e.key, IF e.t > (IF e.v = "allow" THEN TTLok ELSE TTLfail) THEN e.t - (IF e.v = "allow" THEN TTLok ELSE TTLfail) ELSE 0, e.t)
 
 Accept == Ev.k = "call" => CallOK(Ev)
-Next == /\ l <= Len(T.events) /\ Accept /\ l' = l + 1 /\ tr' = tr
+Next == /\ l <= Len(T.events) /\ (Accept = TRUE) /\ l' = l + 1 /\ tr' = tr
         /\ owner' = IF Ev.k = "move" THEN [owner EXCEPT ![Ev.h] = Ev.c] ELSE owner
         /\ ready' = IF Ev.k = "ready" THEN [ready EXCEPT ![Ev.c] = Ev.ready] ELSE ready
         /\ answers' = IF Ev.k = "answer" THEN Append(answers, [c |-> Ev.c, kind |-> Ev.kind, key |-> Ev.key, v |-> Ev.v, t |-> Ev.t]) ELSE answers
